@@ -1,10 +1,12 @@
 package server
 
 import (
+	"io"
 	"io/fs"
 	"os"
 	"strings"
 
+	"github.com/ollama/ollama/template"
 	"github.com/ollama/ollama/types/model"
 )
 
@@ -46,6 +48,13 @@ func vfDigest(k int, dash bool) string {
 	return "sha256" + sep + vfHex + string("abc"[k])
 }
 
+// an arbitrary media type (one symbolic character): blobs may be shared under different media types
+func vfMT() string {
+	s := verifNondetString("mediatype", 1)
+	verifAssume(len(s) == 1)
+	return s
+}
+
 func vfBlobFile(k int) string { return "/models/blobs/sha256-" + vfHex + string("abc"[k]) }
 
 // an arbitrary store: nMan manifests with up to 2 layers and an optional config over 3 digests
@@ -56,10 +65,10 @@ func vfArbStore(nMan int, dashSpelling bool) {
 		m := &Manifest{SchemaVersion: 2}
 		nl := verifChoice(vfMaxLayers + 1)
 		for j := 0; j < nl; j++ {
-			m.Layers = append(m.Layers, Layer{Digest: vfDigest(verifChoice(3), dashSpelling && verifChoice(2) == 1)})
+			m.Layers = append(m.Layers, Layer{MediaType: vfMT(), Digest: vfDigest(verifChoice(3), dashSpelling && verifChoice(2) == 1)})
 		}
 		if verifChoice(2) == 1 {
-			m.Config = Layer{Digest: vfDigest(verifChoice(3), dashSpelling && verifChoice(2) == 1)}
+			m.Config = Layer{MediaType: vfMT(), Digest: vfDigest(verifChoice(3), dashSpelling && verifChoice(2) == 1)}
 		}
 		vfStore[names[i]] = m
 	}
@@ -97,10 +106,10 @@ func VerifC04RemoveLayers(nMan int) {
 	old := &Manifest{}
 	nl := verifChoice(vfMaxLayers + 2)
 	for j := 0; j < nl; j++ {
-		old.Layers = append(old.Layers, Layer{Digest: vfDigest(verifChoice(3), false)})
+		old.Layers = append(old.Layers, Layer{MediaType: vfMT(), Digest: vfDigest(verifChoice(3), false)})
 	}
 	if verifChoice(2) == 1 {
-		old.Config = Layer{Digest: vfDigest(verifChoice(3), false)}
+		old.Config = Layer{MediaType: vfMT(), Digest: vfDigest(verifChoice(3), false)}
 	}
 	err := old.RemoveLayers()
 	verifReach("removed")
@@ -249,5 +258,67 @@ func VerifC04ExistingName(nExisting int, maxLen int) {
 			verifAssert(r == e, "existing-model-is-addressed-by-its-stored-spelling")
 		}
 		verifAssert(vfNamesConsistent(r, e), "store-stays-case-consistent")
+	}
+}
+
+// ---- create: replacing the template of the model being created ----
+
+var vfBlobPresent [3]bool
+
+// replacement for NewLayer (temp file, hashing, rename): the new content hashes to an arbitrary one of
+// the three digests - possibly the digest of a layer that is being replaced - and is in the store afterwards
+func vfNewLayer(r io.Reader, mediatype string) (Layer, error) {
+	k := verifChoice(3)
+	vfRemoved = append(vfRemoved, "+"+vfBlobFile(k))
+	return Layer{MediaType: mediatype, Digest: vfDigest(k, false), Size: 1}, nil
+}
+
+func vfParseTemplate(s string) (*template.Template, error) { return nil, nil }
+
+var vfMediaTypes = []string{"application/vnd.ollama.image.template", "application/vnd.ollama.image.system", "application/vnd.ollama.image.model"}
+
+// VerifC04SetTemplate: for every store, every list of base layers with distinct blobs (present in the
+// store) and every new template content: after setTemplate every layer of the list it returns is in the
+// store, and no blob that a manifest references has been removed.
+func VerifC04SetTemplate(nMan int, which int) {
+	vfRemoved = nil
+	vfArbStore(nMan, false)
+	vfBlobPresent = [3]bool{true, true, true}
+	var layers []Layer
+	used := [3]bool{}
+	n := verifChoice(3)
+	for i := 0; i < n; i++ {
+		k := verifChoice(3)
+		verifAssume(!used[k])
+		used[k] = true
+		layers = append(layers, Layer{MediaType: vfMediaTypes[verifChoice(3)], Digest: vfDigest(k, false), Size: 1})
+	}
+	var out []Layer
+	var err error
+	if which == 0 {
+		out, err = setTemplate(layers, "{{ .Prompt }}")
+	} else {
+		out, err = setSystem(layers, "you are helpful")
+	}
+	verifReach("layer-replaced")
+	verifAssert(err == nil, "no-error")
+	// replay the effect log: a removal makes the blob absent, a later store makes it present again
+	for _, f := range vfRemoved {
+		for k := 0; k < 3; k++ {
+			if f == vfBlobFile(k) {
+				verifAssert(!vfReferenced(k), "blob-still-referenced-by-another-model-is-not-removed")
+				vfBlobPresent[k] = false
+			}
+			if f == "+"+vfBlobFile(k) {
+				vfBlobPresent[k] = true
+			}
+		}
+	}
+	for _, l := range out {
+		for k := 0; k < 3; k++ {
+			if l.Digest == vfDigest(k, false) {
+				verifAssert(vfBlobPresent[k], "layer-of-the-model-being-created-is-in-the-store")
+			}
+		}
 	}
 }
